@@ -449,6 +449,53 @@ class AtomicWrite(Harness):
         return ok
 
 
+class AtomicWriteTempNames(Harness):
+    """write_atomic: two writers of the same target -- two threads of one process, two processes -- work on different temporary
+    files whenever their random draws differ (the name must not be derived from something the writers share, like the process
+    id): otherwise the second open fails, its error path unlinks the first writer's file and both writes are lost."""
+    modules = ['mapproxy.util.fs']
+    functions = ['write_atomic']
+
+    @classmethod
+    def build(cls, L, cfg):
+        return dict(fs=L.mods['mapproxy.util.fs'])
+
+    @classmethod
+    def inputs(cls, ctx, cfg):
+        r1, r2, pid = int_var('random_draw_1'), int_var('random_draw_2'), int_var('pid')
+        assume(AND(r1 >= 0, r1 <= 99999999, r2 >= 0, r2 <= 99999999, r1 != r2, pid >= 1, pid <= 4194304))
+        return dict(r1=r1, r2=r2, pid=pid)
+
+    @classmethod
+    def prop(cls, ctx, cfg, r1, r2, pid):
+        import types
+        fs = ctx['fs']
+        opened = []
+
+        class FH(object):
+            def __enter__(self):
+                return self
+
+            def __exit__(self, *a):
+                return False
+
+            def write(self, data):
+                pass
+        draws = [r1, r2]
+        fs.random = types.SimpleNamespace(randint=lambda a, b: draws.pop(0))
+        fs.os = types.SimpleNamespace(open=lambda p, flags, mode=0o664: opened.append(p) or 7, fdopen=lambda fd, mode='r': FH(),
+                                      rename=lambda a, b: None, unlink=lambda p: None, remove=lambda p: None, getpid=lambda: pid,
+                                      O_EXCL=128, O_CREAT=64, O_WRONLY=1, sep=os.sep, path=os.path)
+        if hasattr(fs, 'threading'):
+            fs.threading = types.SimpleNamespace(get_ident=lambda: 1, current_thread=lambda: types.SimpleNamespace(ident=1, name='t'))
+        target = ROOT + '/single_color_tiles/0a28c8.png'
+        fs.write_atomic(target, b'A')
+        fs.write_atomic(target, b'B')
+        if len(opened) != 2:
+            return False
+        return AND(opened[0] != opened[1], opened[0] != target, opened[1] != target)
+
+
 class LinkTarget(Harness):
     """link_single_color_images: the symbolic link written for a tile points -- relative to the tile's own directory -- at
     the shared colour file inside the cache directory, for every tile of a sequence of stores at different directory
